@@ -6,6 +6,7 @@ import UcantoModel.Model.Http
 import UcantoModel.Model.CarDriver
 import UcantoModel.Model.Did
 import UcantoModel.Model.Cost
+import UcantoModel.Model.UcanJson
 /-!
 # Line-protocol driver
 stdin: one case per line, TAB separated: `op  arg1  arg2 …`
@@ -220,6 +221,29 @@ def doCost (world impl : String) : String :=
     | _ => s!"{mo}:{c}\t-"
   | .error e => bad s!"world:{e}"
 
+/-- `ucan`: predicted verification outcomes of an issued token and of its single alteration -/
+def doUcan (spec : String) : String :=
+  match Lean.Json.parse spec with
+  | .error e => bad s!"spec:{e}"
+  | .ok j =>
+    let alter := (UcanJson.optStr j "alter").getD "none"
+    let alg := (UcanJson.optStr j "alg").getD ""
+    match j.getObjVal? "fields" >>= UcanJson.parseToken, j.getObjVal? "altered" >>= UcanJson.parseToken with
+    | .ok t, .ok t' =>
+      let fieldKinds := ["none", "aud", "iss", "with", "can", "nb-value", "nb-add", "cap-add", "cap-drop", "prf-add", "prf-drop",
+        "prf-reorder", "exp", "exp-none", "nbf", "nnc", "fct-add", "fct-change", "version",
+        "nb-link-to-slashmap", "nb-bytes-to-slashmap", "fct-link-to-slashmap"]
+      -- the altered token verifies exactly when the record rebuilt from it is the record that was signed
+      -- (and, for an altered issuer, never: the verifier's DID is the original issuer)
+      let altered :=
+        if fieldKinds.contains alter then
+          UcanJson.beqRec (Payload.verifyRec alg t') (Payload.verifyRec alg t) && t'.iss == t.iss
+        else false
+      let tf := fun (b : Bool) => if b then "T" else "F"
+      s!"issued=T|transported=T|altered={tf altered}\t-"
+    | .error e, _ => bad s!"fields:{e}"
+    | _, .error e => bad s!"altered:{e}"
+
 def handle (line : String) : String :=
   match line.splitOn "\t" with
   | ["access", mode, world, spine, checker, _, impl] => doAccess mode world spine checker impl
@@ -237,6 +261,7 @@ def handle (line : String) : String :=
   | ["carflip", r, b, m, impl] => doCar "carflip" [r, b, m] impl
   | ["handle", ct, acc, body, _] => doHandle ct acc body
   | ["channel", st, _, _] => doChannel st
+  | ["ucan", spec, _] => doUcan spec
   | ["cost", world, impl] => doCost world impl
   | ["bsconc", _, _, _, _, _, impl] => (if impl.startsWith "consistent:" then impl else "consistent") ++ "\t-"
   | ["req", _, impl] => (if impl.startsWith "status:" || impl == "error" || impl.startsWith "skip:" then impl else "status-or-error") ++ "\t-"
